@@ -87,6 +87,7 @@ type controller struct {
 	diverged   string
 	realised   int
 	compared   int
+	rechecks   int // projections that differed at first reading
 }
 
 const settle = 10 * time.Second
@@ -460,17 +461,12 @@ func (c *controller) takeAhead(l label) bool {
 	return false
 }
 
-// compare checks the observable projection of the real server against the specification's state.
-func (c *controller) compare(step int, l label, p *proj, plan []planLine) {
+// diffs lists where the observable projection of the real server differs from the specification's state.
+func (c *controller) diffs(p *proj) [][3]string {
 	w := c.w
+	var out [][3]string
 	bad := func(field string, real, spec interface{}) {
-		_, snap := sched.Quiet()
-		var gs []string
-		for _, g := range snap {
-			gs = append(gs, fmt.Sprintf("%d[%s] %s", g.ID, g.State, firstFrames(g.Stack)))
-		}
-		w.sum.Mis("server/projection:"+field, fmt.Sprintf("after step %d (%s) the real server has %s = %v, the specification %v", step, l, field, real, spec),
-			map[string]interface{}{"mode": c.mode, "plan": plan[:step+1], "events": w.R.Events(), "goroutines": gs, "parked": fmt.Sprint(w.R.AllParked()), "debug": w.R.Debug()})
+		out = append(out, [3]string{field, fmt.Sprint(real), fmt.Sprint(spec)})
 	}
 	if got := w.Srv.VerifStarted(); got != p.Started {
 		bad("started", got, p.Started)
@@ -508,7 +504,32 @@ func (c *controller) compare(step int, l label, p *proj, plan []planLine) {
 			bad("packetconn-deadline", st.Deadline, p.PCDL)
 		}
 	}
+	return out
+}
+
+// compare checks the observable projection of the real server against the specification's state.  The state
+// of a quiescent process does not change, so a difference is only reported when it is still there after the
+// process has been found quiescent a second time (a goroutine caught between two blocked states cannot
+// produce a finding).
+func (c *controller) compare(step int, l label, p *proj, plan []planLine) {
 	c.compared++
+	first := c.diffs(p)
+	if len(first) == 0 {
+		return
+	}
+	time.Sleep(5 * time.Millisecond)
+	c.quiet()
+	c.w.R.Dbg("projection re-read after %v", first)
+	c.rechecks++
+	for _, d := range c.diffs(p) {
+		_, snap := sched.Quiet()
+		var gs []string
+		for _, g := range snap {
+			gs = append(gs, fmt.Sprintf("%d[%s] %s", g.ID, g.State, firstFrames(g.Stack)))
+		}
+		c.w.sum.Mis("server/projection:"+d[0], fmt.Sprintf("after step %d (%s) the real server has %s = %s, the specification %s", step, l, d[0], d[1], d[2]),
+			map[string]interface{}{"mode": c.mode, "plan": plan[:step+1], "events": c.w.R.Events(), "goroutines": gs, "first": first})
+	}
 }
 
 // run forces the plan, then lets everything finish.
@@ -640,7 +661,7 @@ func replay(mode, plans, out string) {
 	wr := hx.NewWriter(out)
 	defer wr.Close()
 	var sum hx.Summary
-	realised, steps, done, compared, kinds := 0, 0, 0, 0, map[string]bool{}
+	realised, steps, done, compared, rechecks, kinds := 0, 0, 0, 0, 0, map[string]bool{}
 	var notes []string
 	for i, plan := range all {
 		c := newController(mode, &sum, int64(i))
@@ -667,6 +688,7 @@ func replay(mode, plans, out string) {
 		}
 		done += c.realised
 		compared += c.compared
+		rechecks += c.rechecks
 		if c.diverged == "" {
 			realised++
 		} else if len(notes) < 5 {
@@ -685,6 +707,7 @@ func replay(mode, plans, out string) {
 	sum.Note("steps_planned", steps)
 	sum.Note("steps_realised", done)
 	sum.Note("projections_compared", compared)
+	sum.Note("projections_reread", rechecks)
 	sum.Note("not_realised_examples", notes)
 	sum.Print()
 }
